@@ -57,14 +57,22 @@ def targets (d : NJ) (sep : Char) : Targets :=
     | _ => .nothing
   else .nothing
 
+/-- a slice applied to a list of matches, the survivors in document order: an int `k` keeps match number `k`
+    (if there is one), a slice object keeps the matches whose rank it lists -/
+def pickSel {β : Type} (sl : Slice) (ms : List β) : List β :=
+  match sl with
+  | .idx k => (ms[k.toNat]?).toList
+  | .range a b s => ((enumFrom 0 ms).filter (fun p => decide (p.1 ∈ pySlice (.range a b s) ms.length))).map (·.2)
+
+/-- a slice of the path language: a non-negative int or a slice object with a non-zero step -/
+def sliceOK : Slice → Bool
+  | .idx k => decide (0 ≤ k)
+  | .range _ _ s => decide (s ≠ some 0)
+
 /-- the dicts with the wanted id, the slice applied to that list, survivors in document order -/
 def choose (c : Comp) (cands : List NJ) : CM (List NJ) :=
-  let ms := cands.filter (fun d => njLabel d = some c.id)
-  match c.slice with
-  | .idx k => if 0 ≤ k then .ok (ms[k.toNat]?).toList else .error .other
-  | .range a b s =>
-    if s = some 0 then .error .other
-    else .ok (((enumFrom 0 ms).filter (fun p => p.1 ∈ pySlice (.range a b s) ms.length)).map (·.2))
+  if sliceOK c.slice then .ok (pickSel c.slice (cands.filter (fun d => njLabel d = some c.id)))
+  else .error .other
 
 /-- results of the selected dicts, one after the other -/
 def concatQ : List (CM (List QV)) → CM (List QV)
